@@ -81,7 +81,12 @@ def run_tree(ctx, which, kind, batches):
             st = TU.tree_transpose(list(ts))
             for j in range(B):
                 out.update(leaves_eq(f"C19.slice_of_transpose[{j}]", TU.tree_slice(st, j), ts[j]))
-            out.update(leaves_eq("C19.slice_of_transpose[i]", TU.tree_slice(st, i), sel(list(ts), ii)))
+            # traced (symbolic) index: one clause per value of i (the case split keeps each obligation a unit-propagation problem; as one clause
+            # over the symbolic selection the 3888-element leaf of MMST's state took 230 s)
+            sl = TU.tree_slice(st, i)
+            for k in range(-B, B):
+                for n_, v_ in leaves_eq(f"C19.slice_of_transpose[i={k}]", sl, ts[k % B]).items():
+                    out[n_] = v_ | (i != k)
             added = TU.tree_add_element(t, i, e)
             for j in range(B):
                 want = jax.tree_util.tree_map(lambda a, b: jnp.where(ii == j, a, b[j]), e, t)
